@@ -201,6 +201,12 @@ Proof.
   - destruct (rest s); discriminate.
 Qed.
 
+Lemma copy_nN_ok n s x : copy_nN n s = Ok x -> read_nN n s = Ok x.
+Proof. unfold copy_nN, read_nN. destruct (n <=? blen (rest s)); [auto|discriminate]. Qed.
+
+Lemma copy_nN_nofuel n s : copy_nN n s <> OutOfFuel.
+Proof. unfold copy_nN. destruct (n <=? blen (rest s)); [apply read_n_nofuel|discriminate]. Qed.
+
 Lemma read_nN_nofuel n s : read_nN n s <> OutOfFuel.
 Proof. unfold read_nN. destruct (n <=? blen (rest s)); [apply read_n_nofuel|]. destruct (rest s); discriminate. Qed.
 
@@ -286,10 +292,10 @@ Proof.
     destruct (Byte.eqb y x00); [injection Hk0 as <- <- <-; lia|discriminate].
   - (* bytes *)
     binv Hk0. destruct x1 as [l s3]. binv Hk. destruct x1 as [b s4]. binv Hk0. destruct x1 as [p s5].
-    injection Hk as <- <- <-. apply read_num_ok in Hb1. apply read_nN_ok in Hb2. apply read_nN_ok in Hb3. lia.
+    injection Hk as <- <- <-. apply read_num_ok in Hb1. apply copy_nN_ok in Hb2. apply read_nN_ok in Hb2. apply read_nN_ok in Hb3. lia.
   - (* string *)
     binv Hk0. destruct x1 as [l s3]. binv Hk. destruct x1 as [b s4]. binv Hk0. destruct x1 as [p s5].
-    injection Hk as <- <- <-. apply read_num_ok in Hb1. apply read_nN_ok in Hb2. apply read_nN_ok in Hb3. lia.
+    injection Hk as <- <- <-. apply read_num_ok in Hb1. apply copy_nN_ok in Hb2. apply read_nN_ok in Hb2. apply read_nN_ok in Hb3. lia.
 Qed.
 
 Lemma dec_prim_nofuel k tag s : dec_prim k tag s <> OutOfFuel.
@@ -305,10 +311,10 @@ Proof.
     destruct (skipn 7 b) as [|y [|? ?]]; try discriminate.
     destruct (Byte.eqb y x01); [discriminate|]. destruct (Byte.eqb y x00); discriminate.
   - apply bind_fuel in H; destruct H as [H|[[l s3] [_ H]]]; [exact (read_num_nofuel _ _ H)|].
-    apply bind_fuel in H; destruct H as [H|[[b s4] [_ H]]]; [exact (read_nN_nofuel _ _ H)|].
+    apply bind_fuel in H; destruct H as [H|[[b s4] [_ H]]]; [exact (copy_nN_nofuel _ _ H)|].
     apply bind_fuel in H; destruct H as [H|[[p s5] [_ H]]]; [exact (read_nN_nofuel _ _ H)|]. discriminate.
   - apply bind_fuel in H; destruct H as [H|[[l s3] [_ H]]]; [exact (read_num_nofuel _ _ H)|].
-    apply bind_fuel in H; destruct H as [H|[[b s4] [_ H]]]; [exact (read_nN_nofuel _ _ H)|].
+    apply bind_fuel in H; destruct H as [H|[[b s4] [_ H]]]; [exact (copy_nN_nofuel _ _ H)|].
     apply bind_fuel in H; destruct H as [H|[[p s5] [_ H]]]; [exact (read_nN_nofuel _ _ H)|]. discriminate.
 Qed.
 
